@@ -100,6 +100,98 @@ def check_pipeline(ctx, crate, trait, b):
               instance=f"{who}: Ok dominated by state.end()? Ok-edge")
 
 
+def pipeline_table(ctx, crate, trait, fn_body):
+    """R6.1 as a decision table (minterp): the request deserializer is interpreted once per combination of
+    (encoding lookup ok / fails, bounded read ok / fails, T::deserialize ok / fails, end-of-input validation ok / fails) with
+    those four steps as atoms; it must return Ok(the deserialized value) exactly when all four succeed, having read the
+    body with Some(<its const limit>), built the deserializer of the looked-up encoding over the buffer read, driven that
+    state's deserializer and validated the end of input on the same state after deserializing.  -> True when every row stayed
+    inside the interpretable fragment."""
+    from .. import minterp
+    F = ctx.F
+    OPTP, RESP = "core::option::Option", "core::result::Result"
+    who = f"StdRequestDeserializer::{'async ' if 'Async' in trait else ''}deserialize"
+    names = [fn_body.local_name(k) for k in range(1, fn_body.argc + 1)]
+    bad, done = [], 0
+    for enc_ok in (True, False):
+        for read_ok in (True, False):
+            for parse_ok in (True, False):
+                for end_ok in (True, False):
+                    trace = []
+
+                    def oracle(f, argv, enc_ok=enc_ok, read_ok=read_ok, parse_ok=parse_ok, end_ok=end_ok, trace=trace):
+                        n, dd = f.get("name"), f.get("def", "")
+                        rd = (f.get("resolved") or {}).get("def") or ""
+                        if n == "request_body_encoding":
+                            trace.append(("lookup", list(argv)))
+                            return minterp.adt(RESP, 0, [("sym", "encoding")]) if enc_ok else minterp.adt(RESP, 1, [("sym", "lookup-error")])
+                        if n in ("read_body", "async_read_body") and dd.startswith("conjure_http::private::"):
+                            trace.append(("read", list(argv)))
+                            return minterp.adt(RESP, 0, [("sym", "buf")]) if read_ok else minterp.adt(RESP, 1, [("sym", "read-error")])
+                        if dd == "conjure_http::server::encoding::Encoding::deserializer":
+                            trace.append(("state", list(argv)))
+                            return ("sym", "state")
+                        if dd == "conjure_http::server::encoding::DeserializerState::deserializer":
+                            trace.append(("de", list(argv)))
+                            return ("sym", "de")
+                        if dd == "serde_core::de::Deserialize::deserialize" or dd == "serde::de::Deserialize::deserialize":
+                            trace.append(("parse", list(argv)))
+                            return minterp.adt(RESP, 0, [("sym", "value")]) if parse_ok else minterp.adt(RESP, 1, [("sym", "parse-error")])
+                        if dd == "conjure_http::server::encoding::DeserializerState::end":
+                            trace.append(("end", list(argv)))
+                            return minterp.adt(RESP, 0, [("tuple", [])]) if end_ok else minterp.adt(RESP, 1, [("sym", "trailing-data")])
+                        return minterp.NO_VALUE
+                    I = minterp.Interp(F, crate, inline=lambda d_, rid: crate.body(rid) is not None and crate.body(rid).name not in ("read_body", "async_read_body", "request_body_encoding"), max_depth=4)
+                    I.call_oracle = oracle
+                    args = [("sym", nm or f"a{k}") for k, nm in enumerate(names)]
+                    try:
+                        r = I.run(fn_body, args)
+                        if isinstance(r, tuple) and r and r[0] == "closure" and crate.body(r[1]) is not None and crate.body(r[1]).kind == "coroutine":
+                            r = I.run(crate.body(r[1]), [r, ("sym", "cx")], depth=1)
+                    except minterp.Unsupported as e:
+                        ctx.note(f"R6.1 {who}: decision table not available ({e}); decided by the structural rules")
+                        return False
+                    if not (minterp.is_adt(r) and r[1] == RESP):
+                        ctx.note(f"R6.1 {who}: decision table not available (result {r!r:.80}); decided by the structural rules")
+                        return False
+                    done += 1
+                    row = f"encoding lookup {'ok' if enc_ok else 'fails'}, read {'ok' if read_ok else 'fails'}, T::deserialize {'ok' if parse_ok else 'fails'}, end-of-input {'ok' if end_ok else 'fails'}"
+                    want_ok = enc_ok and read_ok and parse_ok and end_ok
+                    if (r[2] == 0) != want_ok:
+                        bad.append(f"{row}: returns {'Ok' if r[2] == 0 else 'Err'}, specification {'Ok' if want_ok else 'Err'}")
+                        continue
+                    if not want_ok:
+                        continue
+                    steps = [t[0] for t in trace]
+                    tmap = {t[0]: t[1] for t in trace}
+
+                    def view(v, sym):
+                        while isinstance(v, tuple) and v and v[0] == "call" and v[1].split("::")[-1] in ("deref", "as_ref", "borrow", "deref_mut", "as_mut", "as_slice") and v[2]:
+                            v = v[2][0]
+                        return v == ("sym", sym)
+                    problems = []
+                    if r[3][0] != ("sym", "value"):
+                        problems.append(f"the value returned is {r[3][0]!r:.60}, not the deserialized one")
+                    if steps != ["lookup", "read", "state", "de", "parse", "end"]:
+                        problems.append(f"steps performed: {steps}; required: lookup, bounded read, Encoding::deserializer, state.deserializer(), T::deserialize, state.end()")
+                    else:
+                        lim = tmap["read"][1] if len(tmap["read"]) == 2 else None
+                        lim_ok = minterp.is_adt(lim) and lim[1] == OPTP and lim[2] == 1 and (lim[3][0] == ("tyconst", "N") or (isinstance(lim[3][0], tuple) and lim[3][0] and lim[3][0][0] == "item" and "SIZE_LIMIT" in lim[3][0][1])
+                                                                                              or (isinstance(lim[3][0], int) and not isinstance(lim[3][0], bool) and lim[3][0] > 0 and False))
+                        if not lim_ok:
+                            problems.append(f"the body is read with limit {lim!r:.60}; required Some(<the deserializer's const size limit>)")
+                        if not (tmap["read"][0] == ("sym", "body") or tmap["read"][0] == ("sym", names[-1] or "")):
+                            problems.append("the bounded read is not handed the request body")
+                        if not (len(tmap["state"]) == 2 and view(tmap["state"][0], "encoding") and view(tmap["state"][1], "buf")):
+                            problems.append("the deserializer must be the looked-up encoding's, over the buffer read")
+                        if not (view(tmap["de"][0], "state") and view(tmap["parse"][0], "de") and view(tmap["end"][0], "state")):
+                            problems.append("T::deserialize must drive the state's deserializer and end() must validate the same state")
+                    if problems:
+                        bad.append(f"{row}: " + "; ".join(problems))
+    ctx.check(not bad, "R6.1", fn_body.loc(), f"{who}|pipeline-table", f"{who}: " + "; ".join(bad[:3]), instance=f"{who}: {done} rows (lookup x read x deserialize x end-of-input) = specification: Ok(value) iff all four succeed, one bounded read, same encoding / buffer / state")
+    return True
+
+
 def check_state_ends(ctx, crate):
     """the local DeserializerState impls forward end() to the server deserializer's end()"""
     n = 0
@@ -328,8 +420,153 @@ def check_reader_paths(ctx, crate, b, limited, rule):
     return True
 
 
+READER_ERR = "<stream error>"
+READER_MODELS = [   # (stream items, size limit): chunkings (empty chunks included), stream errors at every position, limits around the total
+    ([], None), ([], 0), ([b"ab"], None), ([b"ab", b"c"], None), ([b"ab", b"c", b"de", b"f"], None), ([b"", b"ab"], None), ([b"ab", b""], None), ([b"ab", b"", b"c"], None),
+    ([b"a", b"b", b"", b"", b"c"], None), ([b""], None), ([b"", b""], None), ([b"", b"", b"a"], 1),
+    ([READER_ERR], None), ([b"ab", READER_ERR], None), ([b"ab", b"c", READER_ERR], None), ([b"ab", b"c", b"d", READER_ERR], None), ([b"ab", READER_ERR, b"c"], None), ([b"", READER_ERR], None),
+    ([b"abc"], 2), ([b"abc"], 3), ([b"abc"], 4), ([b"ab", b"c"], 2), ([b"ab", b"c"], 3), ([b"ab", b"c", b"d"], 3), ([b"ab", b"c", b"d"], 4), ([b"a", b"b", b"c", b"d", b"e"], 4), ([b"a", b"b", b"c", b"d", b"e"], 5),
+    ([b"a"], 0), ([b"ab", b"c", READER_ERR], 2), ([b"abc", b"d", b"e"], 1000),
+]
+
+
+def reader_table(ctx, crate, fn_body, rule, who):
+    """The body reader decided by interpretation over small models (minterp): the stream is a scripted sequence of chunks and
+    errors, `Bytes` / `BytesMut` / `Vec<u8>` live on a little heap kept by the call oracle, `.await` completes at once.  For
+    every model the result must be Ok(concatenation of all chunks) when no item is an error and the total length is within
+    the limit, and Err otherwise.  -> True when every model stayed inside the interpretable fragment (the verdict is then
+    recorded), False when the structural forms have to decide."""
+    import itertools
+    from .. import minterp
+    F = ctx.F
+    OPTP, RESP = "core::option::Option", "core::result::Result"
+    lim_idx = [k for k in range(1, fn_body.argc + 1) if is_limit_ty(F, fn_body.local_ty(k))]
+    it_idx = [k for k in range(1, fn_body.argc + 1) if k not in lim_idx]
+    if len(lim_idx) != 1 or len(it_idx) != 1:
+        return False
+    bad, done = [], 0
+    for chunks, limit in READER_MODELS:
+        heap = {}
+        cnt = itertools.count()
+
+        def new(kind, val, heap=heap, cnt=cnt):
+            k = next(cnt)
+            heap[k] = val
+            return (kind, k)
+        it = new("iter", [("bytes", x) if x != READER_ERR else READER_ERR for x in chunks])
+
+        def blen(v, heap=heap):
+            if isinstance(v, tuple) and v and v[0] == "bytes":
+                return len(v[1])
+            if isinstance(v, tuple) and v and v[0] == "buf":
+                return len(heap[v[1]])
+            return None
+
+        def bval(v, heap=heap):
+            if isinstance(v, tuple) and v and v[0] == "bytes":
+                return v[1]
+            if isinstance(v, tuple) and v and v[0] == "buf":
+                return bytes(heap[v[1]])
+            return None
+
+        def oracle(f, argv, heap=heap, new=new, it=it, blen=blen, bval=bval):
+            n, dd = f.get("name"), f.get("def", "")
+            if n in ("into_iter", "by_ref", "fuse", "as_mut", "get_mut", "into_stream", "peekable") and argv and argv[0] == it:
+                return it
+            if n in ("next", "try_next") and argv and argv[0] == it:
+                l = heap[it[1]]
+                x = l.pop(0) if l else None
+                if n == "next":
+                    return minterp.adt(OPTP, 0, []) if x is None else minterp.adt(OPTP, 1, [minterp.adt(RESP, 1, [("sym", "stream-error")]) if x == READER_ERR else minterp.adt(RESP, 0, [x])])
+                return minterp.adt(RESP, 0, [minterp.adt(OPTP, 0, [])]) if x is None else (minterp.adt(RESP, 1, [("sym", "stream-error")]) if x == READER_ERR else minterp.adt(RESP, 0, [minterp.adt(OPTP, 1, [x])]))
+            if n in ("new", "with_capacity", "default") and (dd.startswith("bytes::bytes_mut::BytesMut") or dd.startswith("alloc::vec::Vec")) and (not argv or n == "with_capacity"):
+                return new("buf", bytearray())
+            if n == "new" and dd.startswith("bytes::bytes::Bytes") and not argv:
+                return ("bytes", b"")
+            if n == "reserve" and argv and isinstance(argv[0], tuple) and argv[0] and argv[0][0] == "buf":
+                return ("tuple", [])
+            if n in ("extend_from_slice", "put", "put_slice", "extend", "unsplit") and len(argv) == 2 and isinstance(argv[0], tuple) and argv[0] and argv[0][0] == "buf" and bval(argv[1]) is not None:
+                heap[argv[0][1]] += bval(argv[1])
+                return ("tuple", [])
+            if n in ("freeze", "from", "into", "copy_from_slice", "to_vec", "split", "split_to") and argv and isinstance(argv[-1], tuple) and argv[-1] and argv[-1][0] in ("buf", "bytes") and len(argv) == 1:
+                if n in ("split", "split_to"):
+                    return minterp.NO_VALUE
+                return ("bytes", bval(argv[-1]))
+            # a Vec of chunks (`vec![first, second]`, push, index, iteration)
+            if n in ("into_vec", "box_assume_init_into_vec_unsafe") and argv and isinstance(argv[0], tuple) and argv[0] and argv[0][0] == "array":
+                return new("list", list(argv[0][1]))
+            if n in ("new", "with_capacity") and dd.startswith("alloc::vec::Vec") and f.get("substs") and "Bytes" in tystr(f["substs"][0]):
+                return new("list", [])
+            if argv and isinstance(argv[0], tuple) and argv[0] and argv[0][0] == "list" and argv[0][1] in heap:
+                l_ = heap[argv[0][1]]
+                if n == "push" and len(argv) == 2:
+                    l_.append(argv[1])
+                    return ("tuple", [])
+                if n in ("index", "index_mut") and len(argv) == 2 and isinstance(argv[1], int) and not isinstance(argv[1], bool):
+                    if not 0 <= argv[1] < len(l_):
+                        raise minterp.Unsupported("index out of range: the code panics here")
+                    return l_[argv[1]]
+                if n == "len":
+                    return len(l_)
+                if n == "is_empty":
+                    return not l_
+                if n in ("iter", "into_iter", "drain"):
+                    return ("iter", minterp._It(list(l_)))
+                if n in ("deref", "as_slice", "as_ref", "borrow", "deref_mut", "reserve"):
+                    return argv[0] if n != "reserve" else ("tuple", [])
+                if n in ("concat",):
+                    return ("bytes", b"".join(bval(x_) for x_ in l_))
+            if n == "len" and argv and blen(argv[0]) is not None:
+                return blen(argv[0])
+            if n == "is_empty" and argv and blen(argv[0]) is not None:
+                return blen(argv[0]) == 0
+            return minterp.NO_VALUE
+        I = minterp.Interp(F, crate, inline=lambda d_, rid: True, max_depth=4)
+        I.call_oracle = oracle
+        args = [None] * fn_body.argc
+        args[it_idx[0] - 1] = it
+        lty = tystr(fn_body.local_ty(lim_idx[0]))
+        if lty.startswith("core::option::Option"):
+            args[lim_idx[0] - 1] = minterp.adt(OPTP, 0, []) if limit is None else minterp.adt(OPTP, 1, [limit])
+        else:
+            if limit is None:
+                continue
+            args[lim_idx[0] - 1] = limit
+        try:
+            r = I.run(fn_body, args)
+            if isinstance(r, tuple) and r and r[0] == "closure" and crate.body(r[1]) is not None and crate.body(r[1]).kind == "coroutine":
+                r = I.run(crate.body(r[1]), [r, ("sym", "cx")], depth=1)
+        except minterp.Unsupported as e:
+            ctx.note(f"{rule} {who}: small-model table not available ({e}); decided by the structural forms")
+            return False
+        if not (minterp.is_adt(r) and r[1] == RESP):
+            ctx.note(f"{rule} {who}: small-model table not available (result {r!r:.80}); decided by the structural forms")
+            return False
+        total = b"".join(x for x in chunks if x != READER_ERR)
+        want_ok = READER_ERR not in chunks and (limit is None or len(total) <= limit)
+        got_ok = r[2] == 0
+        val = bval(r[3][0]) if got_ok else None
+        done += 1
+        show = [x.decode() if x != READER_ERR else x for x in chunks]
+        if got_ok != want_ok:
+            bad.append(f"stream {show}, limit {limit}: returns {'Ok' if got_ok else 'Err'}, specification {'Ok' if want_ok else 'Err'}")
+        elif got_ok and val != total:
+            bad.append(f"stream {show}, limit {limit}: returns Ok({val!r}), the complete body is {total!r}")
+    ctx.check(not bad, rule, fn_body.loc(), f"{who}|reassembly-table", f"{who}: the body must be returned complete however it is chunked, a stream error or an over-limit body must be an error: " + "; ".join(bad[:3]),
+              instance=f"{who}: {done} small models (chunkings x stream errors x limits) = specification")
+    return True
+
+
 def check_reader(ctx, crate, b, limited=True, rule="R6.2"):
-    """the accumulator form of the rule; when it does not apply to the way the reader keeps its data, the path form"""
+    """decided by the small-model table when the reader stays inside the interpretable fragment; otherwise the accumulator
+    form of the structural rule and, when that does not apply to the way the reader keeps its data, the path form"""
+    orig = crate.body(b.id)
+    outer = orig
+    if orig is not None and orig.kind == "coroutine" and getattr(orig, "parent", None):
+        outer = crate.body(orig.parent) or orig
+    who_ = outer.name if outer is not None else "reader"
+    if outer is not None and outer.kind == "fn" and reader_table(ctx, crate, outer, rule, who_):
+        return True
     buf = _Buffered(ctx)
     check_reader_acc(buf, crate, b, limited, rule)
     who = b.path.split("::")[-1] if b.kind != "coroutine" else "async_read_body"
@@ -600,6 +837,73 @@ def debug_only_blocks(body):
     return out
 
 
+def _length_like(body, op, depth=0):
+    """the operand is a small constant, the length of a live string / slice / buffer, or a sum of such"""
+    c_ = op.get("c")
+    if c_ is not None:
+        return isinstance(c_.get("int"), int) and 0 <= c_["int"] < (1 << 32)
+    if depth > 4:
+        return False
+    r = dt.resolve_copy(body, op)
+    if r[0] == "def" and r[1][1] == "T":
+        return r[1][2]["call"]["name"] in ("len", "capacity", "remaining", "len_utf8") and not r[1][2]["call"].get("local")
+    if r[0] == "def":
+        rv = r[1][2]["r"]
+        if rv.get("bin") in ("AddWithOverflow", "Add", "AddUnchecked"):
+            return _length_like(body, rv["a"], depth + 1) and _length_like(body, rv["b"], depth + 1)
+    if r[0] == "place" and not isinstance(r[1], int) and r[1]["p"] and isinstance(r[1]["p"][-1], dict) and r[1]["p"][-1].get("f") == 0:
+        # `.0` of a checked addition
+        ds = dt.single_def(body, r[1]["l"])
+        if ds is not None and ds[1] != "T" and ds[2]["r"].get("bin") == "AddWithOverflow":
+            return _length_like(body, ds[2]["r"]["a"], depth + 1) and _length_like(body, ds[2]["r"]["b"], depth + 1)
+    return False
+
+
+def _const_index_in_literal(body, t):
+    """`v[k]` with a constant k on a vector that was built by a `vec![..]` literal of more than k elements and is never shortened
+    in this function"""
+    if len(t["args"]) != 2 or not isinstance((t["args"][1].get("c") or {}).get("int"), int):
+        return False
+    k = t["args"][1]["c"]["int"]
+    def base_local(op, hops=0):
+        p_ = op_place(op)
+        if p_ is None or hops > 8:
+            return None
+        l_ = place_local(p_)
+        d_ = dt.single_def(body, l_)
+        if d_ is not None and d_[1] != "T":
+            r_ = d_[2]["r"]
+            if "use" in r_:
+                return base_local(r_["use"], hops + 1)
+            if "ref" in r_:
+                return base_local({"cp": r_["ref"]}, hops + 1)
+        return l_
+    v = base_local(t["args"][0])
+    if v is None:
+        return False
+    ds = dt.single_def(body, v)
+    if ds is None or ds[1] != "T" or ds[2]["call"]["name"] not in ("box_assume_init_into_vec_unsafe", "into_vec"):
+        return False
+    n = None
+    for s_ in Tracer(body, through_calls=True).sources(ds[2]["args"][0]):
+        if s_[0] == "agg":
+            st = body.blocks[s_[1]]["s"][s_[2]]
+            if st["r"].get("agg") == "array":
+                n = len(st["r"]["ops"])
+    if n is None:
+        # the array is written through the box (`*_b = [a, b]`): the only array aggregate of that length feeding this vector
+        arrs = [s_ for _, _, s_ in body.stmts() if s_["r"].get("agg") == "array"]
+        if len(arrs) == 1:
+            n = len(arrs[0]["r"]["ops"])
+    if n is None or k >= n:
+        return False
+    for _, t2 in body.calls():
+        if t2["call"]["name"] in ("truncate", "clear", "pop", "remove", "drain", "swap_remove", "split_off", "retain", "dedup") and "Vec" in t2["call"]["def"] and t2["args"] \
+                and base_local(t2["args"][0]) == v:
+            return False
+    return True
+
+
 def panic_sites(body):
     out = []
     dbg = debug_only_blocks(body)
@@ -610,10 +914,23 @@ def panic_sites(body):
             continue
         t = blk["t"]
         if "assert" in t:
+            if t.get("kind") == "overflow:Add":
+                # capacity arithmetic: a sum of lengths of values that coexist in memory (and small constants) fits in usize
+                p_ = op_place(t["assert"])
+                ds_ = dt.single_def(body, place_local(p_)) if p_ is not None else None
+                if ds_ is not None and ds_[1] != "T" and ds_[2]["r"].get("bin") == "AddWithOverflow" and _length_like(body, ds_[2]["r"]["a"]) and _length_like(body, ds_[2]["r"]["b"]):
+                    continue
             out.append((t["ln"], "assert:" + t["kind"], t.get("x")))
         if "call" in t:
             d = t["call"]["def"]
             nm = t["call"]["name"]
+            if nm in ("unwrap", "expect") and "result::Result" in d and t["args"]:
+                # formatting into a String: the sink cannot fail, so this is `ToString::to_string` spelled out (which panics in the
+                # same — unreachable for the crate's own Display / Plain impls — case of a formatter returning an error)
+                r_ = dt.resolve_copy(body, t["args"][0])
+                if r_[0] == "def" and r_[1][1] == "T" and r_[1][2]["call"]["name"] in ("write_fmt", "write_str", "write_char") \
+                        and any(tystr(strip_refs(x_)) == "alloc::string::String" for x_ in (r_[1][2]["call"].get("substs") or []) + [r_[1][2]["call"].get("self_ty") or {}]):
+                    continue
             if nm in ("unwrap", "expect", "unwrap_err", "expect_err") and ("result::Result" in d or "option::Option" in d):
                 out.append((t["ln"], ("Result::" if "result::Result" in d else "Option::") + nm, t.get("x")))
             if d.startswith("core::panicking::") or d.startswith("std::rt::begin_panic") or nm in ("panic_fmt", "unreachable_display", "panic_display"):
@@ -622,7 +939,7 @@ def panic_sites(body):
                 out.append((t["ln"], f"{nm} (panics when the index is out of bounds)", t.get("x")))
             if nm == "index" and "ops::index::Index" in d:
                 # indexing with `..` (RangeFull) selects the whole slice / str / Vec / array and cannot fail
-                if not any(ty_adt(s_) == "core::ops::range::RangeFull" for s_ in t["call"].get("substs", [])[1:2]):
+                if not any(ty_adt(s_) == "core::ops::range::RangeFull" for s_ in t["call"].get("substs", [])[1:2]) and not _const_index_in_literal(body, t):
                     out.append((t["ln"], "Index::index", t.get("x")))
     return out
 
@@ -636,7 +953,10 @@ def run(ctx):
     ctx.units["conjure_http bodies"] = len(c.bodies)
     std = [(tr_, inline.expand(c, b_, depth=2, pred=lambda cb: cb.d.get("vis") != "pub" and not is_limit_check(cb), lower=True)) for tr_, b_ in find_impl_bodies(c, STD)]
     ctx.floor("R6.1", "StdRequestDeserializer deserialize bodies", len(std), 2)
+    outer = {b_.trait: b_ for b_ in c.bodies if b_.trait in DESER_TRAITS and ty_adt(b_.self_ty) == STD and b_.name == "deserialize" and b_.kind == "assoc_fn"}
     for trait, b in std:
+        if trait in outer and pipeline_table(ctx, c, trait, outer[trait]):
+            continue
         check_pipeline(ctx, c, trait, b)
     check_state_ends(ctx, c)
     # R6.2 readers
@@ -645,9 +965,11 @@ def run(ctx):
         if b.kind == "fn" and b.name in ("read_body", "async_read_body") and b.id.startswith("conjure_http::private::"):
             readers.append(expand_reader(c, real_body(c, b)))
     ctx.floor("R6.2", "body readers", len(readers), 2)
-    for b in readers:
-        check_reader(ctx, c, b)
-    check_limit_fn(ctx, c, readers)
+    by_table = [bool(check_reader(ctx, c, b)) for b in readers]
+    if not (by_table and all(by_table)):
+        # (the small-model tables exercise the limit on both sides of the total; the structural form of the limit test is the
+        # fallback for a reader the tables could not evaluate)
+        check_limit_fn(ctx, c, readers)
     # R6.3
     scope = [b for _, b in std] + readers
     scope += [b for b in c.bodies if b.name in ("check_limit", "request_body_encoding", "deserialize_inner") and b.kind in ("fn", "assoc_fn")]
@@ -717,7 +1039,8 @@ def run(ctx):
         conv = [r for r in rets if r[1]["call"]["name"] in ("ok_or_else", "ok_or")]
         good, how = False, ""
         # form A: encodings.iter().find(|e| mime_matches(content_type, e)).ok_or_else(error)
-        if len(finds) == 1 and not oks and len(conv) == 1 and dt.derives_from_call(b, conv[0][1]["args"][0], finds[0][0]):
+        # (strictly: the Option handed to ok_or_else is the one find returned — a copy chain, no `or` / `or_else` / `unwrap_or` between)
+        if len(finds) == 1 and not oks and len(conv) == 1 and Tracer(b).sources(conv[0][1]["args"][0]) == {("call", finds[0][0])}:
             clos = [x for x in c.closures_of(b) if any(t["call"]["name"] == "mime_matches" for _, t in x.calls())]
             good, how = len(clos) == 1, "Ok only from find(mime_matches)"
         # form B: for e in encodings { if mime_matches(content_type, e) { return Ok(e) } } Err(..)
@@ -750,7 +1073,16 @@ def run(ctx):
             pred_ok = len(fl) == 1 and any(any(t2["call"]["name"] == "mime_matches" for _, t2 in x.calls()) for x in c.closures_of(b0_))
             if pred_ok and okl:
                 vt_ = Tracer(bl, through_agg=True, transparent=dt.value_tracer(bl).transparent)
-                good = all(dt.derives_from_call(bl, o[2]["r"]["ops"][0], fl[0][0], vt_) for o in okl)
+                def only_from_find(op_):
+                    # every origin of the returned encoding is the find call (not merely one of them: `find(..).or_else(fallback)`)
+                    bases = set()
+                    for q in vt_.sources(op_):
+                        while q[0] == "field":
+                            q = q[1]
+                        bases.add(q)
+                    calls_ = {q for q in bases if q[0] == "call"}
+                    return calls_ == {("call", fl[0][0])} and not any(q[0] == "arg" for q in bases)
+                good = all(dt.derives_from_call(bl, o[2]["r"]["ops"][0], fl[0][0], vt_) and only_from_find(o[2]["r"]["ops"][0]) for o in okl)
                 how = "every Ok carries the result of find(mime_matches) (lowered combinator chain)"
         ctx.check(good, "R6.4", b.loc(), "request_body_encoding|no-fallback", "request_body_encoding must return exactly the registered encoding found by the media-type match, or an error (no fallback encoding)",
                   instance=f"request_body_encoding: {how}")
